@@ -10,10 +10,15 @@ import DigModel.State
 namespace Dig
 
 structure Ctx where
-  cfg    : Cfg
-  env    : TyEnv
-  script : List (Nat × List Beh)
+  cfg     : Cfg
+  env     : TyEnv
+  script  : List (Nat × List Beh)
+  /-- all functions share one code pointer (reflect.MakeFunc) -/
+  sameIds : Bool := true
   deriving Repr, Inhabited
+
+/-- constructor ID (`dot.CtorID`): a code pointer.  Functions made by reflect.MakeFunc all share one. -/
+def ctorId (sameIds : Bool) (fn : Fn) : Nat := if sameIds then 1000 else 1000 + fn.id
 
 def Ctx.beh (ctx : Ctx) (f x : Nat) : Beh :=
   match ctx.script.find? (·.1 == f) with
@@ -264,65 +269,68 @@ def runCallback (cb : Option Nat) (who : Who) (fn : Nat) (start : Nat) (err : Op
   | some op => st.emit (.cb op who fn err (st.clock - start))
   | none => st
 
+/-- `ExtractList` into a staging writer, `Commit(n.s)`, `called = true` — only when the call returned normally -/
+def ctorCommit (ctx : Ctx) (n : Nat) (node : CtorNode) (r : BodyRes) (st : St) : St :=
+  let commit (ret : Ret) : St :=
+    let st := st.modScope node.s fun sc => extractSlots ctx.env false ret sc node.results
+    st.modCtor n fun y => { y with called := true }
+  match r with
+  | .ok x len => commit { dry := false, f := node.fn.id, x := x, len := len }
+  | .dry => commit { dry := true, f := 0, x := 0, len := 0 }
+  | _ => st
+
+/-- what `constructorNode.Call` returns, and the error its deferred callback sees
+    (the `recover` defer runs before the callback defer) -/
+def ctorOutcome (ctx : Ctx) (f : Nat) (r : BodyRes) : Except Fail Unit × Option DErr :=
+  match r with
+  | .panic x =>
+    if ctx.cfg.recover then (.error (.err (.panicErr f x)), some (.panicErr f x))
+    else (.error (.panic f x), none)
+  | .err x _ => (.error (.err (.ctorFailed (.user f x))), some (.ctorFailed (.user f x)))
+  | .ok _ _ => (.ok (), none)
+  | .dry => (.ok (), none)
+
 /-- `constructorNode.Call` after the arguments have been built: the callback's start time,
-    the call, `ExtractList` into a staging writer, `Commit(n.s)`, `called = true`; the deferred
-    callback and `recover` -/
+    the call, extraction and commit, the deferred callback -/
 def ctorTail (ctx : Ctx) (n : Nat) (node : CtorNode) (args : List Val) : EM Unit := fun st =>
-  let start := st.clock
-  let who := Who.ctor n
-  match callBody ctx who node.fn args st with
-  | (.panic x, st) =>
-    if ctx.cfg.recover then
-      (.error (.err (.panicErr node.fn.id x)), runCallback node.cb who node.fn.id start (some (.panicErr node.fn.id x)) st)
-    else
-      (.error (.panic node.fn.id x), runCallback node.cb who node.fn.id start none st)
-  | (.err x _, st) =>
-    let e := DErr.ctorFailed (.user node.fn.id x)
-    (.error (.err e), runCallback node.cb who node.fn.id start (some e) st)
-  | (.ok x len, st) =>
-    let ret : Ret := { dry := false, f := node.fn.id, x := x, len := len }
-    let st := st.modScope node.s fun sc => extractSlots ctx.env false ret sc node.results
-    let st := st.modCtor n fun y => { y with called := true }
-    (.ok (), runCallback node.cb who node.fn.id start none st)
-  | (.dry, st) =>
-    let ret : Ret := { dry := true, f := 0, x := 0, len := 0 }
-    let st := st.modScope node.s fun sc => extractSlots ctx.env false ret sc node.results
-    let st := st.modCtor n fun y => { y with called := true }
-    (.ok (), runCallback node.cb who node.fn.id start none st)
+  let rb := callBody ctx (.ctor n) node.fn args st
+  let out := ctorOutcome ctx node.fn.id rb.1
+  (out.1, runCallback node.cb (.ctor n) node.fn.id st.clock out.2 (ctorCommit ctx n node rb.1 rb.2))
+
+/-- `ExtractList(n.s, decorated)`, `state = decoratorCalled` -/
+def decoCommit (ctx : Ctx) (d : Nat) (node : DecoNode) (r : BodyRes) (st : St) : St :=
+  let commit (ret : Ret) : St :=
+    let st := st.modScope node.s fun sc => extractSlots ctx.env true ret sc node.results
+    st.modDeco d fun y => { y with state := .called }
+  match r with
+  | .ok x len => commit { dry := false, f := node.fn.id, x := x, len := len }
+  | .dry => commit { dry := true, f := 0, x := 0, len := 0 }
+  | _ => st
+
+/-- a decorator's own error is returned as it is (no errConstructorFailed wrapper) -/
+def decoOutcome (ctx : Ctx) (f : Nat) (r : BodyRes) : Except Fail Unit × Option DErr :=
+  match r with
+  | .panic x =>
+    if ctx.cfg.recover then (.error (.err (.panicErr f x)), some (.panicErr f x))
+    else (.error (.panic f x), none)
+  | .err x _ => (.error (.err (.user f x)), some (.user f x))
+  | .ok _ _ => (.ok (), none)
+  | .dry => (.ok (), none)
 
 /-- `decoratorNode.Call` after the arguments have been built -/
 def decoTail (ctx : Ctx) (d : Nat) (node : DecoNode) (args : List Val) : EM Unit := fun st =>
-  let start := st.clock
-  let who := Who.deco d
-  match callBody ctx who node.fn args st with
-  | (.panic x, st) =>
-    if ctx.cfg.recover then
-      (.error (.err (.panicErr node.fn.id x)), runCallback node.cb who node.fn.id start (some (.panicErr node.fn.id x)) st)
-    else
-      (.error (.panic node.fn.id x), runCallback node.cb who node.fn.id start none st)
-  | (.err x _, st) =>
-    -- `ExtractList` returns the error as it is (no errConstructorFailed wrapper)
-    let e := DErr.user node.fn.id x
-    (.error (.err e), runCallback node.cb who node.fn.id start (some e) st)
-  | (.ok x len, st) =>
-    let ret : Ret := { dry := false, f := node.fn.id, x := x, len := len }
-    let st := st.modScope node.s fun sc => extractSlots ctx.env true ret sc node.results
-    let st := st.modDeco d fun y => { y with state := .called }
-    (.ok (), runCallback node.cb who node.fn.id start none st)
-  | (.dry, st) =>
-    let ret : Ret := { dry := true, f := 0, x := 0, len := 0 }
-    let st := st.modScope node.s fun sc => extractSlots ctx.env true ret sc node.results
-    let st := st.modDeco d fun y => { y with state := .called }
-    (.ok (), runCallback node.cb who node.fn.id start none st)
+  let rb := callBody ctx (.deco d) node.fn args st
+  let out := decoOutcome ctx node.fn.id rb.1
+  (out.1, runCallback node.cb (.deco d) node.fn.id st.clock out.2 (decoCommit ctx d node rb.1 rb.2))
 
 /-- the provider loop of `paramSingle.Build`: an optional parameter absorbs
     `errMissingDependencies` found anywhere in the chain -/
-def providerStep (env : TyEnv) (k : Key) (opt : Bool) (n : Nat) (r : Except Fail Unit × St) : Except Fail (Option Val) × St :=
+def providerStep (env : TyEnv) (k : Key) (opt : Bool) (cid : Nat) (r : Except Fail Unit × St) : Except Fail (Option Val) × St :=
   match r with
   | (.ok (), st2) => (.ok none, st2)
   | (.error (.err e), st2) =>
     if e.hasMissingDeps && opt then (.ok (some (zeroVal env k.ty)), st2)
-    else (.error (.err (.paramSingle k n e)), st2)
+    else (.error (.err (.paramSingle k cid e)), st2)
   | (.error f, st2) => (.error f, st2)
 
 mutual
@@ -381,7 +389,7 @@ def buildSingle (ctx : Ctx) : Nat → Key → Bool → Nat → EM Val
           else (.error (.err (.missingTypes [k])), st)
         | .providers pc ns =>
           EM.bind (firstM ns fun n => fun st1 =>
-              providerStep ctx.env k opt n (callCtor ctx fuel n (st1.ctor n).origS st1)) (fun early => fun st' =>
+              providerStep ctx.env k opt (ctorId ctx.sameIds (st1.ctor n).fn) (callCtor ctx fuel n (st1.ctor n).origS st1)) (fun early => fun st' =>
             match early with
             | some z => (.ok z, st')
             | none =>
@@ -400,7 +408,7 @@ def buildGroup (ctx : Ctx) : Nat → Key → Bool → Nat → EM Val
         match aget (st1.scope s).decorators k with
         | some d =>
           if (st1.deco d).state == DecoState.onStack then (.ok (), st1)
-          else EM.wrapErr (callDeco ctx fuel d s) (.paramGroup k d) st1
+          else EM.wrapErr (callDeco ctx fuel d s) (.paramGroup k (ctorId ctx.sameIds (st1.deco d).fn)) st1
         | none => (.ok (), st1))
       (fun _ => fun st2 =>
         match findDecoratedGroup st2 k anc with
@@ -411,7 +419,7 @@ def buildGroup (ctx : Ctx) : Nat → Key → Bool → Nat → EM Val
             (if soft then EM.pure () else
               forEachM anc fun s => fun st3 =>
                 forEachM (agetL (st3.scope s).providers k)
-                  (fun n => fun st4 => EM.wrapErr (callCtor ctx fuel n (st4.ctor n).origS) (.paramGroup k n) st4) st3)
+                  (fun n => fun st4 => EM.wrapErr (callCtor ctx fuel n (st4.ctor n).origS) (.paramGroup k (ctorId ctx.sameIds (st4.ctor n).fn)) st4) st3)
             (fun _ => fun st5 => (.ok (Val.sl (anc.flatMap fun s => agetL (st5.scope s).groups k)), st5)) st2) st
 
 /-- `param.Build(c)` -/
